@@ -119,13 +119,13 @@ pub fn run(ctx: &Ctx, rep: &mut Report) {
     let lens = sweep_lengths(ctx.tier);
     let items = lens.iter().flat_map(|&len| (0u8..3).map(move |filling| LenCase { len, filling }));
     engine::enumerate(ctx, rep, "length-sweep", items, check_len);
-    let cases = ctx.share(ctx.tier.pick(20_000, 1_600_000));
+    let cases = ctx.share(ctx.tier.pick(80_000, 1_600_000));
     engine::drive(ctx, rep, "random", codec::codec_case(false), cases, check_case);
-    let cases = ctx.share(ctx.tier.pick(6_000, 240_000));
+    let cases = ctx.share(ctx.tier.pick(24_000, 240_000));
     engine::drive(ctx, rep, "chunk-boundary", boundary_case(), cases, check_case);
-    let cases = ctx.share(ctx.tier.pick(2_000, 120_000));
+    let cases = ctx.share(ctx.tier.pick(8_000, 120_000));
     engine::drive(ctx, rep, "random-large", codec::codec_case(true), cases, check_case);
-    let cases = ctx.share(ctx.tier.pick(6_000, 320_000));
+    let cases = ctx.share(ctx.tier.pick(24_000, 320_000));
     engine::drive(ctx, rep, "power-of-two-aligned", codec::aligned_case(), cases, check_case);
 }
 
